@@ -291,7 +291,8 @@ def check_c20(tier, seed):
         chk.sample(cases[len(cases) // 2])
         replay_parallel(chk, cases, replay_cppgen_case, mode, lambda c: json.dumps(c['d'], sort_keys=True))
         if mode != 'parts':
-            pools[mode] = [c['d'] for c in cases if c.get('valid') and well_formed_cpp(c['d'])]
+            # (compositions put the members into a class called S)
+            pools[mode] = [c['d'] for c in cases if c.get('valid') and well_formed_cpp(c['d']) and c['d'].get('scope', 'S') in ('', 'S')]
         chk.traces += len(cases)
     rng = random.Random(seed + 20)
     jobs = []
